@@ -31,20 +31,21 @@ func TestCheck(t *testing.T) {
 	vk.Main(t, vk.Spec{
 		Prop:  "C17",
 		Level: "model_checking",
-		Rule: "(a) every string of <= 4 segments over {a,b,acc,*,>,empty} (plus length / segment-count boundary strings) through ValidateTopic/ValidatePattern vs a reference grammar; every Add/Remove sequence (length <= 4 quick, <= 6 thorough) over three sets of 6 patterns on the real trie x all 120 valid topics of <= 4 segments over {a,b,acc}: Match, Len, refcounts, node count vs the reference multiset; " +
-			"(b) BFS with replay-from-scratch over subscribe / unsubscribe / close / reopen / membership change / EvictMember / RevalidateMembers / CloseSpace / clock / local subscribe / publish histories of the real service in node role and client role (5 fake streams incl. two of one peer, a node link and an unauthenticated one; 2 spaces; accounts A,B members, C,N not), deduplicated on the complete canonical bookkeeping (tries, stream records, pool tags, local maps, duplicate filter, membership); from every new state a battery of publish variants is judged against a reference model and every teardown order must leave no bookkeeping; " +
-			"(c) stateless DFS over the schedules (preemption-bounded) of two concurrent operations at every pubsub / stream-pool mutex acquisition; " +
-			"states = distinct canonical states (b) + distinct trie multisets (a) + distinct race outcomes (c); distinct_nontrivial = distinct publish outcome classes (reason x receiver set), match sets with >= 2 patterns, race outcomes",
+		Rule: "(a) every string of <= 4 segments over {a,b,acc,*,>,empty} plus length / segment-count boundary strings through ValidateTopic/ValidatePattern/TopicOwner vs a reference grammar; every Add/Remove sequence (length <= 4/3/3 quick, <= 6/5/5 thorough) over three sets of 6 patterns on the real trie x all 120 valid topics of <= 4 segments over {a,b,acc}: Match, Len, refcounts and node count vs the reference multiset; " +
+			"(b) level-synchronous BFS with replay-from-scratch (depth 4 quick, 6 thorough) over subscribe (single, several, duplicate, invalid, empty, over-cap) / unsubscribe (list, all) / stream close (peer EOF, connection context) / reopen / membership change / EvictMember / RevalidateMembers / CloseSpace / clock advance / local subscribe, unsubscribe, stale unsubscribe, publish, echo / incoming publish histories of the real service in node role and in client role (5 fake streams: two of one peer, one of another account, a node link, an unauthenticated one; 2 spaces; accounts A,B members, C,N not), deduplicated on the complete canonical bookkeeping (tries, stream records, pool tags, local maps, duplicate filter, membership, clock); after every event the three views of serving-side interest must agree with each other and with the reference; from every new state a battery of 30 publish variants is judged against the reference model (receiver set, <= 1 copy, no re-forwarding, handler invocations) and each of 9-11 teardown orders must leave no bookkeeping; " +
+			"(c) stateless DFS over all schedules within the preemption bound (2 quick, 4 thorough) of 17 pairs of concurrent operations at every pubsub / stream-pool mutex acquisition and stream.closed operation: no panic / deadlock / pool Fatal, final bookkeeping and delivery explained by some order of the two operations; " +
+			"states = distinct canonical service states (b) + distinct trie multisets (a) + distinct race outcomes (c); distinct_nontrivial = distinct publish outcome classes (reason x receiver set), match sets with >= 2 patterns, validator classes, race outcomes",
 		Assumptions: []string{
 			"publish rate stays below the per-peer rate limit and fewer than DedupSize distinct messages arrive within the timestamp window (limiter and ring eviction are not exercised)",
-			"pattern caps are configured small (2 per space, 3 per stream) so that over-cap subscribes are reachable; which patterns an over-cap frame registers follows the documented rule (first ones accepted, the rest refused)",
-			"a relayed message arriving from a responsible node is trusted (its original sender's membership was checked by the ingress node); the client role never fans out to streams",
-			"part (c): goroutines interleave only at mutex acquisitions of commonspace/pubsub and net/streampool, at stream.closed operations and at harness stream events",
+			"pattern caps are configured small (2 per space, 3 per stream) so that over-cap subscribes are reachable; which patterns an over-cap frame registers follows the documented rule (first ones accepted, the rest refused); the cap on local subscriptions is not judged (the reference follows the service's answer)",
+			"a relayed message arriving from a responsible node is trusted (its original sender was checked by the ingress node); the relay role does not verify signatures or filter duplicates (clients do); the client role never fans out to streams; Status frames are not judged",
+			"self-owned namespace: first segment acc, owner = last segment (topic.go)",
+			"part (c): goroutines interleave only at mutex acquisitions of commonspace/pubsub and net/streampool, at stream.closed operations and at harness stream events; an operation touching several streams (CloseSpace, EvictMember, RevalidateMembers) racing with a publish is judged per subscriber stream",
 		},
 		Shards: func(string) int { return 16 },
 		Budget: func(tier string) time.Duration {
 			if tier == "quick" {
-				return 75 * time.Second
+				return 80 * time.Second
 			}
 			return 24 * time.Minute
 		},
@@ -61,10 +62,13 @@ func layout(n int) (nNode, nClient, nRest int) {
 		return 1, 0, 0
 	case n == 2:
 		return 1, 1, 0
+	case n < 8:
+		nRest = 1
+	default:
+		nRest = 2
 	}
-	nNode = max(1, n*7/16)
-	nClient = max(1, n/4)
-	return nNode, nClient, n - nNode - nClient
+	nClient = max(1, (n-nRest)*5/14)
+	return n - nRest - nClient, nClient, nRest
 }
 
 func body(t *testing.T, c *vk.Ctx) {
@@ -125,7 +129,10 @@ func nodeAlphabet(c *vk.Ctx) []event {
 		{K: "closespace", Sp: "X"}, {K: "closespace", Sp: "Y"},
 	}
 	if c.Thorough() {
-		a = append(a, event{K: "tick"}, event{K: "closew", S: "s2"}, event{K: "open", S: "s1"}, event{K: "open", S: "n"})
+		a = append(a, event{K: "tick"}, event{K: "closew", S: "s2"}, event{K: "open", S: "s1"}, event{K: "open", S: "n"},
+			sub("s0", "X/a", "b"), // a space id that would collide with the tag of (X, a/b)
+			sub("s0", "Z", "a"),   // a space this node is not responsible for
+		)
 	}
 	return a
 }
@@ -238,7 +245,7 @@ func partService(t *testing.T, c *vk.Ctx, role string, gi, gn int, dir string) {
 	var depth int
 	if role == "node" {
 		alphabet, probes = nodeAlphabet(c), nodeProbes()
-		depth = vk.Pick(c, 4, 5)
+		depth = vk.Pick(c, 4, 6)
 	} else {
 		alphabet, probes = clientAlphabet(c), clientProbes()
 		r.labels = clientLabels()
